@@ -34,7 +34,13 @@ func init() {
 			st.assume(And(Le(IntLit(0), n), Le(n, Add(SLen(s), IntLit(1)))))
 			st.assume(Implies(Ne(sep, StrLit("")), Le(IntLit(1), n)))
 			el := rt.Underlying().(*types.Slice).Elem()
-			x.setElemArr(st, el, r, 0, App("strings.Split#arr", ArrSort(SInt, SStr), s, sep))
+			arr := App("strings.Split#arr", ArrSort(SInt, SStr), s, sep)
+			x.setElemArr(st, el, r, 0, arr)
+			if lv, ok := litValue(sep); ok && lv == "/" {
+				// A-SPLIT: no piece of a split at "/" contains a "/"
+				bk := BVar("k", SInt)
+				st.assume(Forall([]*Term{bk}, App("spec.NoSlash", SBool, Select(arr, bk)), Select(arr, bk)))
+			}
 			return &Val{T: rt, L: []*Term{r, IntLit(0), n, n}}
 		},
 		"strings.Join": func(x *fnCtx, st *State, fr *Frame, in ssa.Instruction, args []*Val, rt types.Type) *Val {
@@ -42,7 +48,17 @@ func init() {
 			sl := args[0]
 			el := sl.T.Underlying().(*types.Slice).Elem()
 			arr := x.elemArr(st, el, sl.Arr(), 0)
-			return scalar(rt, App("strings.Join", SStr, arr, sl.Off(), sl.Len(), args[1].L[0]))
+			res := App("strings.Join", SStr, arr, sl.Off(), sl.Len(), args[1].L[0])
+			if lv, ok := litValue(args[1].L[0]); ok && lv == "/" {
+				// A-LEX: joining segments none of which is ".." (and none containing "/") by "/"
+				// gives a path without a ".." segment
+				bk := BVar("k", SInt)
+				seg := Select(arr, bk)
+				ok1 := And(App("spec.NoSlash", SBool, seg), Ne(seg, StrLit("..")))
+				ante := Forall([]*Term{bk}, Implies(And(Le(sl.Off(), bk), Lt(bk, Add(sl.Off(), sl.Len()))), ok1), Select(arr, bk))
+				st.assume(Implies(ante, App("spec.NoDotDot", SBool, res)))
+			}
+			return scalar(rt, res)
 		},
 		"strings.Trim": func(x *fnCtx, st *State, fr *Frame, in ssa.Instruction, args []*Val, rt types.Type) *Val {
 			libUsed["strings.Trim"] = true
